@@ -89,6 +89,8 @@ func (c *SpecCtx) resolveType(s string) types.Type {
 	switch {
 	case s == "int" || s == "Int":
 		return mathInt
+	case s == "interface{}" || s == "any":
+		return types.NewInterfaceType(nil, nil)
 	case strings.HasPrefix(s, "*"):
 		return types.NewPointer(c.resolveType(s[1:]))
 	case strings.HasPrefix(s, "[]"):
@@ -644,6 +646,19 @@ func (c *SpecCtx) evalCall(x *ECall) (Val, types.Type) {
 		fn := "|str-of " + typeKey(sl.Elem()) + "|"
 		e.declFun(fn, []Sort{cp.Sort, SInt, SInt, SInt}, SStr)
 		return app(SStr, fn, e.lookup(c.st, cp), sv.Base, sv.Off, sv.Len), types.Typ[types.String]
+	case "ifacestr":
+		// the interface value holding string s (as produced by converting a string to interface{})
+		v, _ := c.eval(x.Args[0])
+		t := types.Typ[types.String]
+		box := "|box " + typeKey(t) + "|"
+		unbox := "|unbox " + typeKey(t) + "|"
+		e.declFun(box, []Sort{SStr}, SInt)
+		e.declFun(unbox, []Sort{SInt}, SStr)
+		if !e.declared["boxstr-inj"] {
+			e.declared["boxstr-inj"] = true
+			e.fact(Term{fmt.Sprintf("(forall ((s Str)) (! (= (%s (%s s)) s) :pattern ((%s s))))", unbox, box, box), SBool})
+		}
+		return app(SInt, "mkiface", e.typeTag(t), app(SInt, box, v.(Term))), types.NewInterfaceType(nil, nil)
 	case "dyntype":
 		v, _ := c.eval(x.Args[0])
 		return app(SInt, "dyntype", v.(Term)), mathInt
@@ -674,6 +689,13 @@ func (c *SpecCtx) evalCall(x *ECall) (Val, types.Type) {
 		v, _ := c.eval(x.Args[0])
 		iv, _ := c.eval(x.Args[1])
 		return e.elemRef(v.(SliceV), c.toInt(iv)), mathInt
+	}
+	if g, ok := e.DB.GhostFns[x.Fun]; ok {
+		cp, pts, rt := e.ghostFnComp(g, c)
+		if len(x.Args) != len(pts) {
+			c.fail("ghost function %s expects %d arguments", g.Name, len(pts))
+		}
+		return nestedSelect(e.lookup(c.st, cp), c.ghostArgs(x.Args)), rt
 	}
 	sf, ok := e.DB.Specs[x.Fun]
 	if !ok {
@@ -788,6 +810,22 @@ func (c *SpecCtx) evalQuant(q *EQuant) Term {
 	return Term{fmt.Sprintf("(exists (%s) %s)", strings.Join(decls, " "), tAnd(g, body).S), SBool}
 }
 
+func (c *SpecCtx) ghostArgs(args []Expr) []Term {
+	var idx []Term
+	for _, a := range args {
+		v, _ := c.eval(a)
+		switch vv := v.(type) {
+		case Term:
+			idx = append(idx, vv)
+		case RefV:
+			idx = append(idx, vv.Ref)
+		default:
+			c.fail("ghost function argument must be scalar")
+		}
+	}
+	return idx
+}
+
 // locations evaluates an assigns target to heap locations.
 func (c *SpecCtx) locations(x Expr) []assignTarget {
 	e := c.e
@@ -865,6 +903,14 @@ func (c *SpecCtx) locations(x Expr) []assignTarget {
 				ref, S = vv, derefType(t)
 			}
 			return c.allFieldTargets(ref, S)
+		}
+		if g, ok := e.DB.GhostFns[x.Fun]; ok {
+			cp, _, _ := e.ghostFnComp(g, c)
+			idx := c.ghostArgs(x.Args)
+			if len(idx) == 0 {
+				return []assignTarget{{comp: cp, whole: true}}
+			}
+			return []assignTarget{{comp: cp, ref: idx[0], more: idx[1:]}}
 		}
 		c.fail("assigns target %s(...)", x.Fun)
 	case *ESel:
